@@ -237,7 +237,7 @@ void Interpret::interp(ASTNode& n) {
                             notify_success();
                         } catch (ApiException const & e) {
                             main_solver->forgetTermNamesSince(namesBefore);
-                            notify_formatted(true, e.what());
+                            notify_formatted(true, "%s", e.what());
                         }
                     }
                 } else {
@@ -381,7 +381,7 @@ void Interpret::interp(ASTNode& n) {
             }
         }
     } catch (ApiException const &e) {
-        notify_formatted(true, e.what());
+        notify_formatted(true, "%s", e.what());
     } catch (std::exception const & e) {
         // Not an error of the input as such (internal error, unsupported combination): the state of the solver is not
         // known to be consistent any more, so report and stop instead of terminating the process abnormally
@@ -659,7 +659,7 @@ bool Interpret::getAssignment() const {
     }
     ss.seekp(-1, std::ios::cur);
     ss << ')';
-    notify_formatted(false, ss.str().c_str());
+    notify_formatted(false, "%s", ss.str().c_str());
     return true;
 }
 
@@ -1235,7 +1235,7 @@ int Interpret::interpPipe() {
             // obtain the error string
             char const * err_str = strerror(errno);
             // format the error
-            notify_formatted(true, err_str);
+            notify_formatted(true, "%s", err_str);
             break;
         }
 
